@@ -1,6 +1,6 @@
 (** C18.SerdeBridge — the derive model instantiated: identifier validators from C10's model, schema
     lookup by (kind, type), and the decidable table checks that [C18.Properties] evaluates. *)
-From Base Require Import Prelude Sx Json.
+From Base Require Import Prelude Sx Json JsonText.
 From Gen Require Import SerdeSchemas.
 From C10 Require Model.
 From C18 Require Import Serde SerdeSpec SerdeProofs SpecSchemas.
@@ -14,6 +14,8 @@ Definition id_valid (c : N) (s : str) : bool :=
   | 4 => is_ok (C10.Model.validate_room_alias_id s)
   | 5 => is_ok (C10.Model.validate_server_name s)
   | 6 => is_ok (C10.Model.validate_room_or_alias_id s)
+  | 7 => is_ok (C10.Model.validate_base64_public_key s)
+  | 8 => is_ok (C10.Model.validate_client_secret s)
   | 9 => is_ok (C10.Model.validate_room_version_id s)
   | 10 => is_ok (C10.Model.validate_key_id C10.Model.KSigningVersion s)
   | _ => false
@@ -50,3 +52,39 @@ Definition all_compat (spec : list (str * str * sty)) (code : list (str * str * 
     diagnosis; empty when [all_compat] holds) *)
 Definition incompatible (spec : list (str * str * sty)) (code : list (str * str * ty)) : list (str * str) :=
   List.map (fun e => (fst (fst e), snd (fst e))) (List.filter (fun e => negb (spec_covered code e)) spec).
+
+(** * Running one case (shared by C18's content stream and C16's body stream) *)
+Fixpoint raw_nodup (r : raw) : bool :=
+  match r with
+  | RArr l => forallb raw_nodup l
+  | RObj m => nodup_strs (List.map fst m) && forallb (fun kv => raw_nodup (snd kv)) m
+  | _ => true
+  end.
+
+(** the model: read with the derive schema, print in declaration order *)
+Definition model_schema_case (t : ty) (j : json) : sx :=
+  match deser id_valid t j with
+  | Some v => match ser t v with
+              | Some j' => SL [SN 0; SS (print j')]
+              | None => sx_bad
+              end
+  | None => SL [SN 1; SN 0]
+  end.
+
+(** what the property demands of an accepted input, evaluated on the text the implementation
+    printed: no duplicate keys, and it reads back as the typed value the input read as *)
+Definition reread_ok (t : ty) (j : json) (text : str) : bool :=
+  match parse_text text with
+  | Some r =>
+      raw_nodup r
+      && match to_canonical r with
+         | Some j2 =>
+             match deser id_valid t j, deser id_valid t j2 with
+             | Some v, Some v2 => val_eqb v v2
+             | None, _ => true        (* left to the correspondence *)
+             | Some _, None => false
+             end
+         | None => true
+         end
+  | None => false
+  end.
